@@ -156,8 +156,21 @@ def run(tier):
             if got == "solved":
                 v.violation(f"C12:contradictory-accepted:{sig}:{got}", f"{text} (system mass {c['ext'] or 'not given'}) is contradictory "
                             f"({c['why']}) but the implementation answers {got}" + (f" with S={S} pct={pct} abs={ab}" if got == "solved" else ""), rep)
+    # the linked setters of one Mixture object: every sequence of setter calls after construction (spec/MixtureObject.tla)
+    from . import mixobj
+    if tier == "quick":
+        mh, mr = mixobj.enumerate_histories([0, 25, 100, 150], [-5, 0, 40, 200], 3)
+    else:
+        mh, mr = mixobj.enumerate_histories([0, 10, 25, 100, 150], [-5, 0, 40, 200, 1000], 4)
+    mviol, mdiv, mops = mixobj.replay(g, mh)
+    for key, msg in mviol:
+        v.violation(key, msg, {"history": msg})
+    if mdiv:
+        v.notes.append("the Mixture object does not follow spec/MixtureObject.tla on some history (not a clause of C12 by itself): " + " | ".join(mdiv[:4]))
     v.coverage = {
-        "states": r.distinct, "transitions": r.generated, "traces_validated_against_impl": replayed, "exhaustive": True,
+        "mixture_object": {"histories": len(mh), "setter_calls_compared": mops, "states": mr.distinct, "divergences_not_c12": len(mdiv),
+                           "invariants": ["Linked", "Ranges", "WrittenPercentInRange", "AbsKeptBySetRel"]},
+        "states": r.distinct + mr.distinct, "transitions": r.generated + mr.generated, "traces_validated_against_impl": replayed + len(mh), "exhaustive": True,
         "configurations_by_reference_outcome": counts, "constants": {k: sorted(x) if isinstance(x, set) else x for k, x in consts.items()},
         "model_theorems": ["SumTo100", "MassesSumToS", "UserValuesKept", "AllPositive"],
         "samples": samples or [cfg_text(configs[0])],
